@@ -24,6 +24,12 @@ CHECKS = {
  'C20': dict(cat='proof', tech='Rocq proof (tag escaping inverse and separator-free, log line print/parse round trip, list exactness and order, dup iff equal hashes, status counters, terminal framing) + unit correspondence on all 1- and 2-byte strings + command-level list/dup/status/pool on adversarial names',
              text='Escaping and report functions are proved for all byte strings/states; the escapers are executed against support.c on 130k cases and the reports of the real binary are parsed by the extracted model parser and compared with an independent tree walk.',
              ref='4/C20'),
+ 'C09': dict(cat='proof', tech='Rocq proof (CRC-32C 4-byte window theorem and seal/residue lemmas; truncation and any <=32-bit alteration of an accepted content file are rejected, on the real grammar decoder; save_atomic over all crash prefixes incl. torn writes, any number of copies) + every truncation / single-bit flip of real content files through the real loader (plain and ASan+UBSan builds) + kill at every numbered syscall of a save',
+             text='Rejection theorems are about the transcribed content grammar (tied to the C loader on ~20000 mutants per run) and the save protocol model (tied call by call to the syscall log); memory safety of the C loader itself is only tested with sanitizers, not proved.',
+             ref='4/C09', note='As TB; additionally: memory safety is TESTED (ASan+UBSan on exhaustive truncation/bit-flip sets), not proved; file-system assumptions: rename atomic, completed calls persist across process death (no power-loss model).'),
+ 'C13': dict(cat='proof', tech='Rocq proof (inductive invariant of the io.c slot-ring transition system for all n>=3, R>=1, W>=0, all position lists: buffer ownership, stripe order, no deadlock, termination measure; n=2 deadlock witness) + trace inclusion of real runs via the SNAPRAID_VERIF hook under seeded schedule perturbation + cache-depth differential',
+             text='The ring protocol is proved for all parameters and schedules on a transcription of io.c; every recorded event of hundreds of perturbed real runs is replayed by the extracted step function; parity/content bytes and error tag multisets are compared across cache depths 1..128. The pthread runtime, memory model and scan threads are outside the model (TSan run in the thorough tier is a test).',
+             ref='4/C13'),
  'C03': dict(cat='proof', tech='Rocq proof (MDS of the 6x251 Cauchy and 3x251 power matrices by polynomial root counting in MathComp; Gauss-Jordan without pivoting never meets a zero pivot; combination enumerator and sorting networks) + unit correspondence of raid_rec/raid_data/raid_check/raid_scan in all decoder families against the known original stripe',
              text='All 3.8e11 minors are settled by theorems, not enumeration; the decoder/validator models are executed against the real raid/*.c (int8, ssse3, avx2, dispatcher) on exhaustive small geometries and boundary-aimed large ones, the oracle being the original stripe.',
              ref='4/C03'),
@@ -40,7 +46,7 @@ m = {
  'version': 1,
  'setup_cmd': './setup.sh',
  'hooks': {'guard': 'SNAPRAID_VERIF', 'enable': 'checks compile a scratch copy of /repo working tree with gcc -DHAVE_CONFIG_H -DSNAPRAID_VERIF (harness/py/common.py)',
-           'baseline_off_cmd': 'cd /repo && make -j8 && make check', 'source_commits': [], 'add_only': True},
+           'baseline_off_cmd': 'cd /repo && make -j8 && make check', 'source_commits': ['358920c (cmdline/io.c: verif_io_event trace hook for C13)'], 'add_only': True},
  'engines': [{'name': 'vcheck', 'path': 'vcheck', 'serves_properties': sorted(CHECKS), 'kind_free_text': 'Rocq/Coq 8.16.1 development under coq/ (logical root Snap) re-checked per property + correspondence harness (python, C drivers, extracted OCaml model)'}],
  'checks': [],
  'not_applicable': [{'property_id': k, 'reason': v} for k, v in sorted(NA.items())],
